@@ -1395,11 +1395,19 @@ func ruleER1() Rule {
 // the claim that the amount of source consumed is fixed by the input, both rest
 // on the lexer being at most one token ahead of the parser.
 
-func ruleCC9() Rule {
-	return Rule{ID: "CC9", Kind: "must", Floor: 2,
-		Doc: "every channel on which the parser package's lexer sends tokens is created unbuffered: the lexer reaches the newline after `<<WORD` only after the parser has received both tokens (so the push that pop waits for is certain), and it never scans ahead of a parser that has already failed (so the input consumed does not depend on the schedule)",
+func ruleCC9(pkgs ...string) Rule {
+	return Rule{ID: "CC9", Kind: "must", Floor: len(pkgs),
+		Doc: "every channel on which a lexer sends tokens is created unbuffered. parser: the lexer reaches the newline after `<<WORD` only after the parser has received both tokens (so the push that pop waits for is certain), and it never scans ahead of a parser that has already failed (so the input consumed does not depend on the schedule). interp: Lex stops handing out tokens once an error is recorded; with a rendezvous the lexer cannot have recorded the error of a later character while an earlier token is still waiting, so which reductions (and assignments) happen before the error does not depend on the schedule",
 		Run: func(c *Ctx, rr *core.RuleResult) {
-			pkg := "parser"
+			for _, pkg := range pkgs {
+				c.cc9(rr, pkg)
+			}
+		}}
+}
+
+func (c *Ctx) cc9(rr *core.RuleResult, pkg string) {
+	{
+		{
 			pk := c.P.Pkgs[pkg]
 			// fields of the lexer sent on by functions of the package
 			lexFields := map[*types.Var]bool{}
@@ -1444,7 +1452,11 @@ func ruleCC9() Rule {
 					rr.OK(f, key, call.Pos(), "unbuffered", "capacity 0")
 					return
 				}
-				rr.Bad(f, key, call.Pos(), "the token channel has a buffer: the lexer can count a here-document and wait in pop for a push the failed parser never makes (hang), and how far it reads ahead after a syntax error depends on the schedule")
+				if pkg == "interp" {
+					rr.Bad(f, key, call.Pos(), "the token channel has a buffer: the lexer can park a good token, run on to a bad character and record its error before the parser has fetched the token; Lex then refuses the parked token, so whether the sub-expression before the error is reduced (and its assignment made) depends on the schedule")
+				} else {
+					rr.Bad(f, key, call.Pos(), "the token channel has a buffer: the lexer can count a here-document and wait in pop for a push the failed parser never makes (hang), and how far it reads ahead after a syntax error depends on the schedule")
+				}
 			}
 			for _, f := range c.funcsOfPkg(pkg, false) {
 				info := f.Info()
@@ -1469,7 +1481,8 @@ func ruleCC9() Rule {
 			if n == 0 {
 				rr.Unkp(c.P, pkg+"|token channel", 0, "no creation site of the token channel found")
 			}
-		}}
+		}
+	}
 }
 
 // ---------------------------------------------------------------------------
@@ -2608,4 +2621,658 @@ func (c *Ctx) reachesReadRune(g *core.Func) bool {
 	scan(g)
 	c.cache[key] = found
 	return found
+}
+
+// ---------------------------------------------------------------------------
+// SRC2: nothing stands between the caller's source and the lexer's read().
+
+func ruleSRC2() Rule {
+	return Rule{ID: "SRC2", Kind: "must-not", Floor: 3,
+		Doc: "the characters the scanners see are the characters of the caller's source, taken one at a time by read(): (a) no hand-written code of the parser outside read()/unread() and their private helpers calls a reading method (ReadRune, UnreadRune, Read, ReadByte, ReadString, Peek …) of a reader - a probe read before the lexer exists loses its error and its character; (b) the scanner handed to the lexer is the caller's own RuneScanner or a standard-library reader over the caller's data (bytes/strings/bufio), never a type of this package; (c) no type of the package implements ReadRune - a reader of our own between source and lexer can fold, drop or buffer characters below the tokenizer, where quoting is unknown",
+		Run: func(c *Ctx, rr *core.RuleResult) {
+			pk := c.P.Pkgs["parser"]
+			if pk == nil {
+				rr.Unkp(c.P, "parser", 0, "package parser not loaded")
+				return
+			}
+			readFn, unreadFn := c.mustFn(rr, "parser.(*lexer).read"), c.mustFn(rr, "parser.(*lexer).unread")
+			if readFn == nil || unreadFn == nil {
+				return
+			}
+			allowed := map[*core.Func]bool{}
+			for _, g := range c.region(readFn) {
+				allowed[g] = true
+			}
+			for _, g := range c.region(unreadFn) {
+				allowed[g] = true
+			}
+			readerMethods := map[string]bool{"ReadRune": true, "UnreadRune": true, "Read": true, "ReadByte": true, "UnreadByte": true, "ReadString": true, "ReadBytes": true, "ReadLine": true, "ReadSlice": true, "Peek": true, "Discard": true, "WriteTo": true, "ReadAt": true, "Seek": true}
+			isReaderType := func(t types.Type) bool {
+				for _, tt := range []types.Type{t, types.NewPointer(t)} {
+					ms := types.NewMethodSet(tt)
+					for i := 0; i < ms.Len(); i++ {
+						if n := ms.At(i).Obj().Name(); n == "ReadRune" || n == "Read" {
+							return true
+						}
+					}
+				}
+				return false
+			}
+			// (a)
+			for _, f := range c.funcsOfPkg("parser", false) {
+				info := f.Info()
+				f.OwnNodes(func(n ast.Node) bool {
+					call, ok := n.(*ast.CallExpr)
+					if !ok {
+						return true
+					}
+					se, ok := call.Fun.(*ast.SelectorExpr)
+					if !ok || !readerMethods[se.Sel.Name] {
+						return true
+					}
+					sel := info.Selections[se]
+					if sel == nil || sel.Kind() != types.MethodVal || !isReaderType(sel.Recv()) {
+						return true
+					}
+					key := f.Name + "|" + exprStr(call.Fun)
+					if allowed[f.Root()] {
+						rr.OK(f, key, call.Pos(), "reader", "inside read()/unread()")
+					} else {
+						rr.Bad(f, key, call.Pos(), "the source is touched outside the lexer's read()/unread(): what this call consumes (and any error it gets) bypasses the one place that records errors, counts lines and hands characters to the scanners")
+					}
+					return true
+				})
+			}
+			// (b) what open returns
+			if f := c.mustFn(rr, "parser.open"); f != nil {
+				info := f.Info()
+				var res types.Object
+				if f.Type.Results != nil && len(f.Type.Results.List) > 0 && len(f.Type.Results.List[0].Names) > 0 {
+					res = info.Defs[f.Type.Results.List[0].Names[0]]
+				}
+				// the value each clause of the source switch binds - unless the
+				// function assigns to it (then it is no longer what the caller gave)
+				reassigned := map[types.Object]bool{}
+				f.OwnNodes(func(n ast.Node) bool {
+					if as, ok := n.(*ast.AssignStmt); ok && as.Tok != token.DEFINE {
+						for _, l := range as.Lhs {
+							if id, ok := l.(*ast.Ident); ok {
+								if o := info.Uses[id]; o != nil {
+									reassigned[o] = true
+								}
+							}
+						}
+					}
+					return true
+				})
+				isCallers := func(e ast.Expr, at ast.Node) bool {
+					id, ok := ast.Unparen(e).(*ast.Ident)
+					if !ok {
+						return false
+					}
+					obj := info.Uses[id]
+					if obj == nil || reassigned[obj] {
+						return false
+					}
+					if cc := enclosingCase(c.P, at); cc != nil {
+						if impl := info.Implicits[cc]; impl != nil {
+							return obj == impl
+						}
+					}
+					_, isVar := obj.(*types.Var)
+					return isVar && isParamOf(f, obj.(*types.Var))
+				}
+				check := func(e ast.Expr, at ast.Node) {
+					e = ast.Unparen(e)
+					pos := at.Pos()
+					key := f.Name + "|source " + normExpr(info, e)
+					switch x := e.(type) {
+					case *ast.Ident:
+						if isNilIdent(info, x) {
+							return
+						}
+						if isCallers(x, at) {
+							rr.OK(f, key, pos, "caller's", "the caller's value is used as it is")
+							return
+						}
+					case *ast.CallExpr:
+						if fo := core.StaticCallee(info, x); fo != nil && fo.Pkg() != nil {
+							switch fo.Pkg().Path() {
+							case "bytes", "strings", "bufio":
+								if len(x.Args) == 1 && isCallers(x.Args[0], at) {
+									rr.OK(f, key, pos, "std reader", fo.Pkg().Path()+"."+fo.Name()+" over the caller's value itself")
+									return
+								}
+								rr.Bad(f, key, pos, "the lexer reads `"+exprStr(e)+"`: a reader over something derived from the caller's source, not over the source itself - a copy of a stream is never advanced for the caller (successive calls re-read the same text), and a rewritten text (line endings, byte order mark) is not the program that was given, also inside quotes and here-documents")
+								return
+							}
+						}
+					}
+					rr.Bad(f, key, pos, "the lexer's source is `"+exprStr(e)+"`, which is neither the caller's scanner nor a standard-library reader over the caller's data: a reader of this package between source and lexer changes what every scanner - also inside quotes - gets to see")
+				}
+				f.OwnNodes(func(n ast.Node) bool {
+					switch s := n.(type) {
+					case *ast.AssignStmt:
+						if len(s.Lhs) == len(s.Rhs) {
+							for i, l := range s.Lhs {
+								if id, ok := l.(*ast.Ident); ok && res != nil && info.ObjectOf(id) == res {
+									check(s.Rhs[i], s)
+								}
+							}
+						}
+					case *ast.ReturnStmt:
+						if len(s.Results) == 2 {
+							check(s.Results[0], s)
+						}
+					}
+					return true
+				})
+			}
+			// (c)
+			scope := pk.Types.Scope()
+			n := 0
+			for _, name := range scope.Names() {
+				tn, ok := scope.Lookup(name).(*types.TypeName)
+				if !ok || tn.IsAlias() {
+					continue
+				}
+				if _, isIface := tn.Type().Underlying().(*types.Interface); isIface {
+					continue
+				}
+				for _, tt := range []types.Type{tn.Type(), types.NewPointer(tn.Type())} {
+					ms := types.NewMethodSet(tt)
+					for i := 0; i < ms.Len(); i++ {
+						m := ms.At(i).Obj()
+						if m.Name() == "ReadRune" && m.Pkg() == pk.Types {
+							n++
+							rr.Badp(c.P, "parser."+name+"|ReadRune", m.Pos(), "type "+name+" of package parser implements ReadRune: a home-made reader between the source and the lexer")
+						}
+					}
+				}
+			}
+			if n == 0 {
+				rr.OKp(c.P, "parser|no ReadRune implementation", pk.Syntax[0].Pos(), "none", "no type of the package implements ReadRune")
+			}
+		}}
+}
+
+// ---------------------------------------------------------------------------
+// CM3/CM4: what linebreak() does while it is inside a comment.
+
+func ruleCM3() Rule {
+	return Rule{ID: "CM3", Kind: "must", Floor: 2,
+		Doc: "linebreak() collects a comment in the lexer's buffer from '#' to the end of the line. While its comment flag is set, every clause of its switch over the rune read, except the newline's, appends the rune to the buffer and neither moves the token position (mark) nor leaves (CM3: a second '#' is text, not a new comment) - the one exception being the closing back-quote of the command substitution the lexer is in, where the comment is flushed and linebreak returns (CM4: `a # c` inside back-quotes)",
+		Run: func(c *Ctx, rr *core.RuleResult) {
+			f := c.mustFn(rr, "parser.(*lexer).linebreak")
+			if f == nil {
+				return
+			}
+			info := f.Info()
+			markFn := c.fn("parser.(*lexer).mark")
+			commentFn := c.fn("parser.(*lexer).comment")
+			cmdSubst := c.fieldVar("parser", "lexer", "cmdSubst")
+			// the comment flag: the bool local a clause listing '#' sets to true
+			var sw *ast.SwitchStmt
+			var hash types.Object
+			f.OwnNodes(func(n ast.Node) bool {
+				s, ok := n.(*ast.SwitchStmt)
+				if !ok || s.Tag == nil {
+					return true
+				}
+				for _, cl := range s.Body.List {
+					cc := cl.(*ast.CaseClause)
+					lists := false
+					for _, e := range cc.List {
+						if v, ok := constInt(info, e); ok && v == '#' {
+							lists = true
+						}
+					}
+					if !lists {
+						continue
+					}
+					ast.Inspect(cc, func(x ast.Node) bool {
+						if as, ok := x.(*ast.AssignStmt); ok && len(as.Lhs) == 1 && len(as.Rhs) == 1 {
+							if id, ok := as.Lhs[0].(*ast.Ident); ok {
+								if tv, ok := info.Types[as.Rhs[0]]; ok && tv.Value != nil && tv.Value.String() == "true" {
+									sw, hash = s, info.ObjectOf(id)
+								}
+							}
+						}
+						return true
+					})
+				}
+				return true
+			})
+			if sw == nil || hash == nil {
+				rr.Unk(f, f.Name+"|comment flag", f.Pos(), "no switch clause for '#' that sets a boolean flag: idiom not recognised")
+				return
+			}
+			runeObj := types.Object(nil)
+			if id, ok := ast.Unparen(sw.Tag).(*ast.Ident); ok {
+				runeObj = info.ObjectOf(id)
+			}
+			isHash := func(e ast.Expr) (bool, bool) { // (is the flag, negated)
+				e = ast.Unparen(e)
+				if u, ok := e.(*ast.UnaryExpr); ok && u.Op == token.NOT {
+					if id, ok := ast.Unparen(u.X).(*ast.Ident); ok && info.ObjectOf(id) == hash {
+						return true, true
+					}
+					return false, false
+				}
+				if id, ok := e.(*ast.Ident); ok && info.ObjectOf(id) == hash {
+					return true, false
+				}
+				return false, false
+			}
+			isBackquoteExit := func(cond ast.Expr) bool {
+				// r == '`' && l.cmdSubst == '`'
+				seenR, seenC := false, false
+				for _, cj := range conj(cond) {
+					be, ok := ast.Unparen(cj).(*ast.BinaryExpr)
+					if !ok || be.Op != token.EQL {
+						return false
+					}
+					v, okv := constInt(info, be.Y)
+					if !okv || v != '`' {
+						return false
+					}
+					if id, ok := ast.Unparen(be.X).(*ast.Ident); ok && info.ObjectOf(id) == runeObj {
+						seenR = true
+					} else if cmdSubst != nil && core.FieldOf(info, be.X) == cmdSubst {
+						seenC = true
+					} else {
+						return false
+					}
+				}
+				return seenR && seenC
+			}
+			// walk a statement list with the flag known true
+			type res struct{ wrote, bad bool }
+			var problems []string
+			var walk func(list []ast.Stmt, wrote bool, inExit bool) (bool, bool) // (wrote, terminated)
+			nExit := 0
+			walk = func(list []ast.Stmt, wrote bool, inExit bool) (bool, bool) {
+				for _, st := range list {
+					switch s := st.(type) {
+					case *ast.IfStmt:
+						if is, neg := isHash(s.Cond); is {
+							if !neg {
+								w, t := walk(s.Body.List, wrote, inExit)
+								wrote = w
+								if t {
+									return wrote, true
+								}
+							} else if s.Else != nil {
+								if b, ok := s.Else.(*ast.BlockStmt); ok {
+									w, t := walk(b.List, wrote, inExit)
+									wrote = w
+									if t {
+										return wrote, true
+									}
+								}
+							}
+							continue
+						}
+						if isBackquoteExit(s.Cond) {
+							nExit++
+							// must flush the comment and return
+							flushed, returned := false, false
+							ast.Inspect(s.Body, func(x ast.Node) bool {
+								switch y := x.(type) {
+								case *ast.CallExpr:
+									if fo := core.StaticCallee(info, y); fo != nil && commentFn != nil && c.P.FuncOf(fo) == commentFn {
+										flushed = true
+									}
+								case *ast.ReturnStmt:
+									returned = true
+								}
+								return true
+							})
+							if !flushed || !returned {
+								problems = append(problems, fmt.Sprintf("line %d: the back-quote exit does not flush the comment and return", c.P.Fset.Position(s.Pos()).Line))
+							}
+							continue
+						}
+						// unknown condition: both branches must behave
+						w1, t1 := walk(s.Body.List, wrote, inExit)
+						w2, t2 := wrote, false
+						if b, ok := s.Else.(*ast.BlockStmt); ok {
+							w2, t2 = walk(b.List, wrote, inExit)
+						}
+						if t1 && t2 {
+							return w1 && w2, true
+						}
+						wrote = (w1 || t1) && (w2 || t2) && (w1 || w2)
+					case *ast.ReturnStmt:
+						problems = append(problems, fmt.Sprintf("line %d: linebreak() returns in the middle of a comment", c.P.Fset.Position(s.Pos()).Line))
+						return wrote, true
+					case *ast.AssignStmt:
+						for _, l := range s.Lhs {
+							if id, ok := l.(*ast.Ident); ok && info.ObjectOf(id) == hash {
+								if tv, ok := info.Types[s.Rhs[0]]; !ok || tv.Value == nil || tv.Value.String() != "true" {
+									problems = append(problems, fmt.Sprintf("line %d: the comment flag is cleared before the end of the line", c.P.Fset.Position(s.Pos()).Line))
+								}
+							}
+						}
+					case *ast.ExprStmt:
+						if call, ok := s.X.(*ast.CallExpr); ok {
+							if fo := core.StaticCallee(info, call); fo != nil && markFn != nil && c.P.FuncOf(fo) == markFn {
+								problems = append(problems, fmt.Sprintf("line %d: mark() moves the position while a comment is being collected", c.P.Fset.Position(s.Pos()).Line))
+							}
+							if se, ok := call.Fun.(*ast.SelectorExpr); ok && se.Sel.Name == "WriteRune" && len(call.Args) == 1 {
+								if id, ok := ast.Unparen(call.Args[0]).(*ast.Ident); ok && info.ObjectOf(id) == runeObj {
+									wrote = true
+								}
+							}
+						}
+					}
+				}
+				return wrote, false
+			}
+			n := 0
+			for _, cl := range sw.Body.List {
+				cc := cl.(*ast.CaseClause)
+				isNL := false
+				for _, e := range cc.List {
+					if v, ok := constInt(info, e); ok && v == '\n' {
+						isNL = true
+					}
+				}
+				if isNL {
+					continue
+				}
+				n++
+				label := "default"
+				if len(cc.List) > 0 {
+					label = exprStr(cc.List[0])
+				}
+				key := f.Name + "|in a comment, case " + label
+				problems = nil
+				wrote, term := walk(cc.Body, false, false)
+				switch {
+				case len(problems) > 0:
+					rr.Bad(f, key, cc.Pos(), "while a comment is being collected this clause does not just append the character: "+strings.Join(problems, "; ")+" - the character is lost from the comment's text or the comment's position moves")
+				case !wrote && !term:
+					rr.Bad(f, key, cc.Pos(), "while a comment is being collected this clause does not append the character to the buffer: it is lost from the comment's text")
+				default:
+					rr.OK(f, key, cc.Pos(), "appends", "with the comment flag set the clause appends the rune and does nothing else")
+				}
+			}
+			key := f.Name + "|comment ends at the closing back-quote"
+			if nExit > 0 {
+				rr.OK(f, key, sw.Pos(), "exit", "a comment in a back-quoted substitution is flushed at the closing back-quote")
+			} else {
+				rr.Bad(f, key, sw.Pos(), "inside a back-quoted command substitution a comment runs past the closing back-quote to the end of the line: `a # c` is rejected")
+			}
+			_ = n
+		}}
+}
+
+// ---------------------------------------------------------------------------
+// AR5: text becomes a number only below the parser.
+
+func ruleAR5() Rule {
+	return Rule{ID: "AR5", Kind: "must-not", Floor: 2,
+		Doc: "in the arithmetic evaluator, strconv's text-to-integer conversions (ParseInt, ParseUint, Atoi) are applied only inside reduce actions, or in helpers called only from reduce actions: the text they get was cut by the lexer into a NUMBER token or is a variable's value. A conversion in Eval itself (a fast path in front of the parser) sees raw text, so whatever strconv accepts and C does not (0b101, 0o17, 1_000) becomes an expression, and the error it returns is not an ArithExprError",
+		Run: func(c *Ctx, rr *core.RuleResult) {
+			gen := ""
+			for _, g := range c.P.Gen {
+				if g.Pkg == "interp" {
+					gen = g.GoFile
+				}
+			}
+			if gen == "" {
+				rr.Unkp(c.P, "interp|grammar", 0, "no generated parser in package interp")
+				return
+			}
+			var yyparse *core.Func
+			for _, f := range c.funcsOfPkg("interp", true) {
+				if f.Generated && f.Decl != nil && strings.HasSuffix(f.Short, "Parse") && strings.Contains(f.Short, "ParserImpl") {
+					yyparse = f
+				}
+			}
+			if yyparse == nil {
+				rr.Unkp(c.P, "interp|yyParse", 0, "the generated parser's Parse method was not found")
+				return
+			}
+			memo := map[*core.Func]int{} // 1 below the parser, 2 not
+			var below func(f *core.Func, depth int) bool
+			below = func(f *core.Func, depth int) bool {
+				f = f.Root()
+				if f == yyparse {
+					return true
+				}
+				if v, ok := memo[f]; ok {
+					return v == 1
+				}
+				memo[f] = 2
+				if depth > 4 {
+					return false
+				}
+				calls, complete := c.callSitesOf(f)
+				if !complete || len(calls) == 0 {
+					return false
+				}
+				for _, cs := range calls {
+					if !below(cs.in, depth+1) {
+						return false
+					}
+				}
+				memo[f] = 1
+				return true
+			}
+			for _, f := range c.funcsOfPkg("interp", true) {
+				if c.P.Fset.Position(f.Pos()).Filename != gen {
+					continue
+				}
+				info := f.Info()
+				f.OwnNodes(func(n ast.Node) bool {
+					call, ok := n.(*ast.CallExpr)
+					if !ok {
+						return true
+					}
+					switch calleeName(info, call) {
+					case "strconv.ParseInt", "strconv.ParseUint", "strconv.Atoi":
+					default:
+						return true
+					}
+					key := f.Name + "|" + normExpr(info, call)
+					if below(f, 0) {
+						rr.OK(f, key, call.Pos(), "below the parser", "applied to a token or a variable's value inside a reduction")
+					} else {
+						rr.Bad(f, key, call.Pos(), "text is converted to a number outside the reduce actions: the conversion sees text the lexer has not cut into tokens, so strconv's own syntax (0b101, 0o17, 1_000, a sign) is accepted where the grammar would reject it, and its error is not an ArithExprError")
+					}
+					return true
+				})
+			}
+		}}
+}
+
+// ---------------------------------------------------------------------------
+// MK1: the token position is not moved while literal text is pending.
+
+func ruleMK1() Rule {
+	return Rule{ID: "MK1", Kind: "must-not", Floor: 10,
+		Doc: "lit() stamps the text collected in the lexer's buffer with l.pos. Inside one scanner function no path leads from a write into the buffer to a mark() - which moves l.pos to the current column - without the buffer having been flushed (lit(), comment(), Reset()) in between: otherwise the pending literal is recorded at the position of whatever follows it",
+		Run: func(c *Ctx, rr *core.RuleResult) {
+			buf := c.fieldVar("parser", "lexer", "b")
+			markFn := c.fn("parser.(*lexer).mark")
+			if buf == nil || markFn == nil {
+				rr.Unkp(c.P, "anchor:lexer.b/mark", 0, "lexer.b or lexer.mark not found")
+				return
+			}
+			flushers := map[*core.Func]bool{}
+			for _, n := range []string{"parser.(*lexer).lit", "parser.(*lexer).comment"} {
+				if g := c.fn(n); g != nil {
+					flushers[g] = true
+				}
+			}
+			// linebreak() writes the buffer only while its comment flag is set and marks
+			// only while it is clear; that exclusion is what CM3 checks (same check)
+			commentLoop := c.fn("parser.(*lexer).linebreak")
+			for _, f := range c.funcsOfPkg("parser", false) {
+				if f.Body == nil || flushers[f.Root()] {
+					continue
+				}
+				if commentLoop != nil && f.Root() == commentLoop {
+					rr.OK(f, f.Name+"|marks exclusive with the comment flag", f.Pos(), "CM3", "writes happen with the comment flag set, marks with it clear: decided by CM3")
+					continue
+				}
+				info := f.Info()
+				isWrite := func(n ast.Node) bool {
+					call, ok := n.(*ast.CallExpr)
+					if !ok {
+						return false
+					}
+					se, ok := call.Fun.(*ast.SelectorExpr)
+					return ok && strings.HasPrefix(se.Sel.Name, "Write") && core.FieldOf(info, se.X) == buf
+				}
+				isFlush := func(n ast.Node) bool {
+					call, ok := n.(*ast.CallExpr)
+					if !ok {
+						return false
+					}
+					if se, ok := call.Fun.(*ast.SelectorExpr); ok && se.Sel.Name == "Reset" && core.FieldOf(info, se.X) == buf {
+						return true
+					}
+					fo := core.StaticCallee(info, call)
+					return fo != nil && flushers[c.P.FuncOf(fo)]
+				}
+				hasWrite := false
+				f.OwnNodes(func(n ast.Node) bool {
+					if isWrite(n) {
+						hasWrite = true
+					}
+					return true
+				})
+				if !hasWrite {
+					continue
+				}
+				pending := core.NewFlow(f).Reaches(isWrite, isFlush)
+				k := 0
+				f.OwnNodes(func(n ast.Node) bool {
+					call, ok := n.(*ast.CallExpr)
+					if !ok {
+						return true
+					}
+					fo := core.StaticCallee(info, call)
+					if fo == nil || c.P.FuncOf(fo) != markFn {
+						return true
+					}
+					// only marks inside a scanner loop: there the text of earlier
+					// iterations is what may be pending.  A mark after the loop, or the
+					// `write the first character, then mark it` idiom outside a loop,
+					// is reached with pending text only on paths the error tests exclude
+					inLoop := false
+					for p := c.P.Parent(call); p != nil; p = c.P.Parent(p) {
+						switch p.(type) {
+						case *ast.ForStmt, *ast.RangeStmt:
+							inLoop = true
+						case *ast.FuncLit, *ast.FuncDecl:
+							p = nil
+						}
+						if p == nil || inLoop {
+							break
+						}
+					}
+					if !inLoop {
+						return true
+					}
+					k++
+					key := fmt.Sprintf("%s|mark #%d in the scanner loop", f.Name, k)
+					if pending[call] {
+						rr.Bad(f, key, call.Pos(), "mark() can be reached with text still pending in the buffer (no lit()/comment() since the last write): the pending literal will be recorded at the position marked here, i.e. at the position of what follows it")
+					} else {
+						rr.OK(f, key, call.Pos(), "flushed", "every path from a buffer write to this mark passes a flush")
+					}
+					return true
+				})
+			}
+		}}
+}
+
+// ---------------------------------------------------------------------------
+// RC8: a state that restarts the pipeline after an alias substitution is
+// entered only where reserved words are recognised.
+
+func ruleRC8() Rule {
+	return Rule{ID: "RC8", Kind: "must", Floor: 1,
+		Doc: "a lexer state that, after a successful alias substitution, restarts at the beginning of a pipeline (returns lexPipeline under subst()) treats the replacement text as the start of a command: `!`, `{` and reserved words in it are recognised. Such a state may be entered only from a dispatcher that itself translates reserved words (calls tr on the token it dispatches), i.e. at a command position; entered from a mid-command state (after an assignment word or a redirection) an alias value starting with `!` or a reserved word would no longer be the same program as the text with the value pasted in",
+		Run: func(c *Ctx, rr *core.RuleResult) {
+			subst := c.mustFn(rr, "parser.(*lexer).subst")
+			start := c.mustFn(rr, "parser.(*lexer).lexPipeline")
+			tr := c.mustFn(rr, "parser.(*lexer).tr")
+			if subst == nil || start == nil || tr == nil {
+				return
+			}
+			calls := func(f *core.Func, g *core.Func) bool {
+				found := false
+				info := f.Info()
+				f.OwnNodes(func(n ast.Node) bool {
+					if call, ok := n.(*ast.CallExpr); ok {
+						if fo := core.StaticCallee(info, call); fo != nil && c.P.FuncOf(fo) == g {
+							found = true
+						}
+					}
+					return !found
+				})
+				return found
+			}
+			n := 0
+			for _, f := range c.funcsOfPkg("parser", false) {
+				if f.Decl == nil || f.Obj == nil || f == start {
+					continue
+				}
+				info := f.Info()
+				restarts := false
+				f.OwnNodes(func(x ast.Node) bool {
+					ret, ok := x.(*ast.ReturnStmt)
+					if !ok || len(ret.Results) != 1 {
+						return true
+					}
+					se, ok := ast.Unparen(ret.Results[0]).(*ast.SelectorExpr)
+					if !ok || info.Uses[se.Sel] != types.Object(start.Obj) {
+						return true
+					}
+					for _, gd := range guardsOf(c.P, ret, nil) {
+						if !gd.pos {
+							continue
+						}
+						ast.Inspect(gd.cond, func(y ast.Node) bool {
+							if call, ok := y.(*ast.CallExpr); ok {
+								if fo := core.StaticCallee(info, call); fo != nil && c.P.FuncOf(fo) == subst {
+									restarts = true
+								}
+							}
+							return true
+						})
+					}
+					return true
+				})
+				if !restarts {
+					continue
+				}
+				// every place that calls f or takes it as a value
+				for _, g := range c.funcsOfPkg("parser", false) {
+					ginfo := g.Info()
+					g.OwnNodes(func(x ast.Node) bool {
+						se, ok := x.(*ast.SelectorExpr)
+						if !ok || ginfo.Uses[se.Sel] != types.Object(f.Obj) {
+							return true
+						}
+						n++
+						key := g.Name + "|enters " + f.Short
+						if calls(g.Root(), tr) {
+							rr.OK(g, key, se.Pos(), "command position", "the dispatcher translates reserved words: it stands at the beginning of a command")
+						} else {
+							rr.Bad(g, key, se.Pos(), f.Short+" restarts the pipeline after an alias substitution (reserved words and `!` in the alias value are recognised), but it is entered here from a state that does not recognise reserved words itself - a position inside a command, where an alias value must be taken as plain words")
+						}
+						return true
+					})
+				}
+			}
+			if n == 0 {
+				rr.Unkp(c.P, "parser|state restarting the pipeline after subst()", 0, "no state returns lexPipeline under subst(): idiom not recognised")
+			}
+		}}
 }
